@@ -397,10 +397,10 @@ func possiblyTrueBehind(in ssa.Instruction, v ssa.Value, guard EdgePred, depth i
 		return true, nil
 	}
 	// the use itself lies behind the guard: whatever the value is and wherever it was computed
-	if depth == 0 {
-		if ok, _ := mustPass(in, guard); ok {
-			return true, nil
-		}
+	// (at depth > 0 `in` is the end of the predecessor the value is chosen from: a value computed
+	// earlier and chosen only behind the guard is as good as one computed behind it)
+	if ok, _ := mustPass(in, guard); ok {
+		return true, nil
 	}
 	if phi, ok := v.(*ssa.Phi); ok && depth < 5 {
 		B := phi.Block()
